@@ -30,23 +30,137 @@ type clearEdit struct {
 	pos  int
 }
 
+// relayStep: one cleartext frame of a LONG cleartext phase: who sends it, its payload (size bytes of
+// fill, so that op lines stay compact) and the edit applied to it in transit.
+type relayStep struct {
+	from string
+	size int
+	fill byte
+	kind string
+}
+
+// relayLongPlan lays out a long cleartext phase: tens of frames in one direction (the other silent) or
+// in both (interleaved at random), the loaded direction(s) carrying well beyond 16, 64 and 256 KiB in
+// total, frame sizes ragged around total/frames; ONE frame of one direction is edited -- among the first
+// two, in the middle, or among the last two of its direction -- or none at all (the honest long exchange
+// must still bind). The binding covers EVERYTHING exchanged in the clear, however much that is and
+// however late in the phase a frame travels.
+func relayLongPlan(c *Ctx) (steps []relayStep, label string) {
+	mode := pick(c, []string{"A", "B", "both", "both"})
+	dirs := []string{mode}
+	if mode == "both" {
+		dirs = []string{"A", "B"}
+	}
+	edDir := dirs[c.Rng.Intn(len(dirs))]
+	pos := pick(c, []string{"early", "middle", "last", "last"})
+	kind := pick(c, []string{"none", "flip", "flip", "flip", "hdrflag", "insert", "drop", "split", "append", "merge"})
+	seqs := map[string][]relayStep{}
+	maxKiB := 0
+	for _, d := range dirs {
+		total := pick(c, []int{24, 40, 80, 144, 288, 320}) << 10
+		nf := 12 + c.Rng.Intn(37)
+		base := total / nf
+		sum := 0
+		var q []relayStep
+		for i := 0; i < nf; i++ {
+			sz := base/2 + c.Rng.Intn(base+1)
+			sum += sz
+			q = append(q, relayStep{from: d, size: sz, fill: byte(c.Rng.Intn(256)), kind: "none"})
+		}
+		if sum < total { // the direction really carries the total: the deficit goes into a frame before the last ones
+			q[c.Rng.Intn(nf-2)].size += total - sum
+		}
+		if d == edDir {
+			at := 0
+			switch pos {
+			case "early":
+				at = c.Rng.Intn(2)
+			case "middle":
+				at = nf/2 - 1 + c.Rng.Intn(3)
+			default:
+				at = nf - 1 - c.Rng.Intn(2)
+			}
+			q[at].kind = kind
+		}
+		seqs[d] = q
+		if total>>10 > maxKiB {
+			maxKiB = total >> 10
+		}
+	}
+	for len(seqs["A"])+len(seqs["B"]) > 0 {
+		d := "A"
+		if len(seqs["A"]) == 0 || (len(seqs["B"]) > 0 && c.Rng.Intn(2) == 0) {
+			d = "B"
+		}
+		steps = append(steps, seqs[d][0])
+		seqs[d] = seqs[d][1:]
+	}
+	return steps, fmt.Sprintf("long:%s:%dKiB:%s:%s", mode, maxKiB, pos, kind)
+}
+
+// relaySpecPayload: the payload of an edited frame for a `wire` op; long runs of one byte travel as
+// fill:<n>:<byte> parts (an edited fill frame is a few runs), the rest as hex.
+func relaySpecPayload(b []byte) string {
+	if len(b) < 64 {
+		return payloadHex(b)
+	}
+	var parts []string
+	for i := 0; i < len(b); {
+		j := i
+		for j < len(b) && b[j] == b[i] {
+			j++
+		}
+		if j-i >= 16 {
+			parts = append(parts, fmt.Sprintf("fill:%d:%02x", j-i, b[i]))
+		} else {
+			parts = append(parts, fmt.Sprintf("%x", b[i:j]))
+		}
+		if len(parts) > 64 {
+			return payloadHex(b)
+		}
+		i = j
+	}
+	return strings.Join(parts, "+")
+}
+
 func relayStreamCase(c *Ctx, idx int) Case {
 	w := newWorld()
 	n := 1 + c.Rng.Intn(4)
+	// every 8th case (20th in thorough) has a LONG cleartext phase (see relayLongPlan)
+	var plan []relayStep
+	long := idx%c.Pick(8, 20) == 5
+	if long {
+		var label string
+		plan, label = relayLongPlan(c)
+		n = len(plan)
+		c.Count(label[:strings.LastIndex(label, ":")])
+	}
 	changed := false
 	sentAll, seenAll := map[string][]byte{}, map[string][]byte{}
 	for i := 0; i < n; i++ {
-		from := "A"
-		if c.Rng.Intn(2) == 0 {
-			from = "B"
+		var from string
+		var d []byte
+		var ed clearEdit
+		second := func() []byte { return randBytes(c, c.Rng.Intn(24)) }
+		if long {
+			st := plan[i]
+			from, d, ed = st.from, bytes.Repeat([]byte{st.fill}, st.size), clearEdit{kind: st.kind}
+			second = func() []byte { return bytes.Repeat([]byte{st.fill ^ 0x5a}, 1+c.Rng.Intn(st.size+1)) }
+		} else {
+			from = "A"
+			if c.Rng.Intn(2) == 0 {
+				from = "B"
+			}
+			d = randBytes(c, c.Rng.Intn(24))
 		}
 		to := w.peer(from).name
-		d := randBytes(c, c.Rng.Intn(24))
 		_ = w.send(from, 1, d)
-		ed := clearEdit{kind: pick(c, []string{"none", "none", "flip", "hdrflag", "insert", "drop", "split", "append", "merge"})}
+		if !long {
+			ed = clearEdit{kind: pick(c, []string{"none", "none", "flip", "hdrflag", "insert", "drop", "split", "append", "merge"})}
+		}
 		if ed.kind == "merge" {
 			// a second message from the same side, so that two adjacent frames are in flight
-			_ = w.send(from, 1, randBytes(c, c.Rng.Intn(24)))
+			_ = w.send(from, 1, second())
 		}
 		honest := append([]byte{}, w.pending[to]...)
 		frames, _ := refcodec.ParseFrames(honest)
@@ -104,7 +218,7 @@ func relayStreamCase(c *Ctx, idx int) Case {
 		var specs []string
 		for _, f := range out {
 			ob = append(ob, f.Bytes()...)
-			specs = append(specs, fmt.Sprintf("r%d:%s", f.Flag, payloadHex(f.Body)))
+			specs = append(specs, fmt.Sprintf("r%d:%s", f.Flag, relaySpecPayload(f.Body)))
 		}
 		// what counts is the whole transcript of the direction (an empty frame inserted by one edit and
 		// an empty message swallowed by a later one leave the receiver with exactly what was sent)
@@ -139,7 +253,11 @@ func relayStreamCase(c *Ctx, idx int) Case {
 	}
 	// ---- property oracle C04 ----
 	if changed && (okAB || okBA) {
-		c.Violate(Violation{Property: "C04", Key: "C04:stream:accepted-after-tamper", What: "the cleartext exchanged before key installation was modified in transit, yet a first protected frame authenticated",
+		key, what := "C04:stream:accepted-after-tamper", "the cleartext exchanged before key installation was modified in transit, yet a first protected frame authenticated"
+		if long {
+			key, what = "C04:stream:long-cleartext-accepted-after-tamper", fmt.Sprintf("a long cleartext phase (%d frames, %d bytes towards A, %d towards B) was modified in transit, yet a first protected frame authenticated", n, len(sentAll["A"]), len(sentAll["B"]))
+		}
+		c.Violate(Violation{Property: "C04", Key: key, What: what,
 			Ops: append([]string{}, w.ops...), Expected: "both first protected frames rejected", Observed: fmt.Sprintf("A->B accepted=%v B->A accepted=%v", okAB, okBA)})
 	}
 	if !changed && !(okAB && okBA) {
@@ -698,7 +816,7 @@ func relayShapes(hm *hsMaterial) []relayShape {
 }
 
 func runRelay(c *Ctx) error {
-	c.Res.Rule = "part 1 (stream level, compared with the model): 1-4 cleartext frames in either direction each edited in transit (payload bit flip, end flag flipped or rewritten to another accepted value 2..10, empty frame inserted before/after, frame dropped, split in two, two adjacent frames merged into one, byte appended), then keys installed and one protected message each way; part 2 (whole handshakes through a byte-editing relay, property oracle): shapes {no authentication, CLAIMTOBE, TOKEN, FS, resumed session (checked to have resumed), FS-fails-then-CLAIMTOBE, bad-TOKEN-then-CLAIMTOBE (checked on the wire)} x every frame of the handshake in each direction x (every byte offset x xor 0x01/0x80 in thorough, every 3rd-6th offset in quick; the end-flag byte also rewritten to 2, 3 and 10) plus empty-frame insertion, frame removal, frame splitting and merging of every pair of adjacent cleartext frames of a direction; two further shapes in which the FIRST method runs and fails on the wire (FS through an address translator, TOKEN signed by a foreign key) before CLAIMTOBE completes, every frame of the abandoned exchange edited too; SEMANTIC edits of the two cleartext ads: every attribute present x a catalogue of plausible other values (RemoteVersion older / newer / unparsable, method and cipher lists extended / reordered, levels and YES/NO swapped, booleans, numbers, generic neighbours of the honest value), the ad re-framed, in one direction and -- for attributes both ads carry -- in both at once; edits that could not be run are counted and bounded; distinct by (shape, edit); non-trivial = the edit lands in a frame exchanged before the application data"
+	c.Res.Rule = "part 1 (stream level, compared with the model): 1-4 cleartext frames in either direction each edited in transit (payload bit flip, end flag flipped or rewritten to another accepted value 2..10, empty frame inserted before/after, frame dropped, split in two, two adjacent frames merged into one, byte appended), then keys installed and one protected message each way; every 8th case (20th in thorough) a LONG cleartext phase instead: 12-48 frames of ragged size in one direction or 12-48 in each of both (interleaved at random), each loaded direction carrying at least 24/40/80/144/288/320 KiB, one frame among the first two, the middle three or the last two of its direction edited by one of the same edits (or none: the honest long exchange must bind); part 2 (whole handshakes through a byte-editing relay, property oracle): shapes {no authentication, CLAIMTOBE, TOKEN, FS, resumed session (checked to have resumed), FS-fails-then-CLAIMTOBE, bad-TOKEN-then-CLAIMTOBE (checked on the wire)} x every frame of the handshake in each direction x (every byte offset x xor 0x01/0x80 in thorough, every 3rd-6th offset in quick; the end-flag byte also rewritten to 2, 3 and 10) plus empty-frame insertion, frame removal, frame splitting and merging of every pair of adjacent cleartext frames of a direction; two further shapes in which the FIRST method runs and fails on the wire (FS through an address translator, TOKEN signed by a foreign key) before CLAIMTOBE completes, every frame of the abandoned exchange edited too; SEMANTIC edits of the two cleartext ads: every attribute present x a catalogue of plausible other values (RemoteVersion older / newer / unparsable, method and cipher lists extended / reordered, levels and YES/NO swapped, booleans, numbers, generic neighbours of the honest value), the ad re-framed, in one direction and -- for attributes both ads carry -- in both at once; edits that could not be run are counted and bounded; distinct by (shape, edit); non-trivial = the edit lands in a frame exchanged before the application data"
 	defer quietStdout()()
 	var cases []Case
 	n := c.Pick(600, 8000)
